@@ -21,7 +21,8 @@ import (
 
 var stakingSel = map[string][]byte{
 	"delegate": {0x02, 0x6e, 0x40, 0x2b}, "undelegate": {0x4d, 0x99, 0xdd, 0x16}, "redelegate": {0x6b, 0xd8, 0xf8, 0x04},
-	"withdrawReward": {0xb8, 0x6e, 0x32, 0x1c}, "transfer": {0xa9, 0x05, 0x9c, 0xbb}, "delegateByActionMessage": {0xd7, 0x3d, 0x84, 0x1b}, "withdrawRewardsByMessage": {0x4b, 0xd7, 0x01, 0x75},
+	"withdrawReward": {0xb8, 0x6e, 0x32, 0x1c}, "withdrawRewards": {0xc7, 0xb8, 0x98, 0x1c},
+	"delegatedValidators": {0x5f, 0xdb, 0x55, 0x0d}, "delegationOf": {0x62, 0x8d, 0xa5, 0x27}, "totalDelegationOf": {0xa2, 0xb9, 0x15, 0xe2}, "rewardOf": {0x47, 0x32, 0xaa, 0x1d}, "rewardsOf": {0x47, 0x9b, 0xa7, 0xae}, "transfer": {0xa9, 0x05, 0x9c, 0xbb}, "delegateByActionMessage": {0xd7, 0x3d, 0x84, 0x1b}, "withdrawRewardsByMessage": {0x4b, 0xd7, 0x01, 0x75},
 }
 
 var (
@@ -187,6 +188,184 @@ func H_C11_2_SignedMessage() {
 			verif.Assert("native-message-carries-the-signed-amount", rec.Amount.Cmp(amt) == 0 && rec.Denom == model.BondDenom)
 		}
 	}
+}
+
+// H_C11_3_WithdrawRewards: withdrawRewards() with the distribution querier reporting outstanding rewards at two
+// validators (symbolic integer and fractional parts in the bond denomination, optionally another denomination):
+// the rewards are queried for the immediate caller; one native MsgWithdrawDelegatorReward is submitted for exactly
+// the validators whose bond-denomination reward reaches the minimum (10^-3 of one coin), in the reported order,
+// each with the caller as delegator; one WithdrawReward log per native message with the amount paid; the returned
+// flag is true; with nothing at or above the minimum nothing is submitted (the call reverts).
+func H_C11_3_WithdrawRewards() {
+	e, contract := stakingWorld()
+	caller := []common.Address{X1, X2}[verif.Choice("caller", 2)]
+	callerBech := sdk.AccAddress(caller.Bytes()).String()
+	vals := []common.Address{Val1, Val2}
+	scale := new(big.Int).Exp(big.NewInt(10), big.NewInt(18), nil)
+	minimum := new(big.Int).Exp(big.NewInt(10), big.NewInt(15), nil)
+	n := verif.Choice("nRewardEntries", 3)
+	var want []wantLog
+	for i := 0; i < n; i++ {
+		pfx := "reward" + string(rune('0'+i))
+		r := model.RewardEntry{Validator: sdk.ValAddress(vals[i].Bytes()).String(), Amount: env.Amount(pfx+".amount", 100), Frac: env.Amount(pfx+".frac", 64), Other: big.NewInt(0)}
+		verif.Assume(r.Frac.Cmp(scale) < 0)
+		if verif.Bool(pfx + ".otherDenomToo") {
+			r.Other = big.NewInt(7)
+		}
+		model.Rewards = append(model.Rewards, r)
+		if r.Amount.Cmp(minimum) >= 0 {
+			want = append(want, wantLog{withdrawTopic, caller, vals[i], r.Amount})
+		}
+	}
+	sdb := e.NewStateDB(e.Ctx, Coinbase)
+	ctx := sdb.GetCurrentContext()
+	input := stakingCall("withdrawRewards")
+	msg := ethtypes.NewMessage(caller, &contract, 0, big.NewInt(0), 5_000_000, big.NewInt(0), big.NewInt(0), big.NewInt(0), input, nil, true)
+	evm := e.EK.NewEVM(ctx, msg, e.EVMConfig(ctx, Coinbase, big.NewInt(0)), nil, sdb)
+	ret, _, err := evm.Call(corevm.AccountRef(caller), contract, input, 5_000_000, big.NewInt(0))
+	if err != nil {
+		// with nothing to withdraw the call reverts ("no old-event found") instead of returning false: no effect either way
+		verif.Assert("call-fails-only-when-nothing-is-withdrawable", len(want) == 0)
+		verif.Assert("failed-call-emits-no-log", len(sdb.GetTransactionLogs()) == 0)
+		verif.Reach("nothing-to-withdraw")
+		return
+	}
+	for _, q := range model.RewardsQueriedFor {
+		verif.Assert("rewards-queried-for-the-immediate-caller", q == callerBech)
+	}
+	verif.Assert("one-native-message-per-validator-above-the-minimum", len(model.StakingLog) == len(want))
+	if len(model.StakingLog) != len(want) {
+		return
+	}
+	for i, rec := range model.StakingLog {
+		verif.Assert("native-message-is-a-withdrawal-for-the-caller", rec.Kind == "withdraw" && rec.Delegator == callerBech)
+		verif.Assert("native-message-validator-in-reported-order", rec.Validator == sdk.ValAddress(want[i].val.Bytes()).String())
+	}
+	checkLogs("logs", sdb.GetTransactionLogs(), want)
+	out, ok := model.AbiOut(ret)
+	verif.Assert("returned-flag-tells-whether-anything-was-withdrawn", ok && len(out) == 1 && out[0].(bool) == (len(want) > 0))
+	if len(want) == 2 {
+		verif.Reach("withdrew-from-both")
+	}
+}
+
+// H_C11_4_Views: the view methods report the numbers of the native queries, asked for the ARGUMENT address (not
+// the caller): delegatedValidators / delegationOf / totalDelegationOf / rewardOf / rewardsOf with the staking and
+// distribution queries as stubs holding symbolic figures (delegation shares at a validator with exchange rate 3,
+// bonded total, per-validator and total rewards with fractional parts and a second denomination); the views change
+// nothing and submit no native message, also under STATICCALL.
+func H_C11_4_Views() {
+	e, contract := stakingWorld()
+	caller := X3
+	who := []common.Address{X1, X2}[verif.Choice("who", 2)]
+	whoBech := sdk.AccAddress(who.Bytes()).String()
+	other := X1
+	if who == X1 {
+		other = X2
+	}
+	val1, val2 := sdk.ValAddress(Val1.Bytes()).String(), sdk.ValAddress(Val2.Bytes()).String()
+	scale := new(big.Int).Exp(big.NewInt(10), big.NewInt(18), nil)
+	// staking state: who delegates to Val1 (symbolic shares incl. fractional part), the other account to Val2
+	sharesRaw := env.Amount("shares.raw", 120) // in 10^-18 units
+	shares := sdkmath.LegacyNewDecFromBigIntWithPrec(sharesRaw, 18)
+	model.Validators = map[string]stakingtypes.Validator{
+		val1: {OperatorAddress: val1, Status: stakingtypes.Bonded, Tokens: sdkmath.NewInt(3000), DelegatorShares: sdkmath.LegacyNewDec(1000)},
+		val2: {OperatorAddress: val2, Status: stakingtypes.Bonded, Tokens: sdkmath.NewInt(500), DelegatorShares: sdkmath.LegacyNewDec(500)},
+	}
+	model.Delegations = []stakingtypes.Delegation{
+		{DelegatorAddress: whoBech, ValidatorAddress: val1, Shares: shares},
+		{DelegatorAddress: sdk.AccAddress(other.Bytes()).String(), ValidatorAddress: val2, Shares: sdkmath.LegacyNewDec(77)},
+	}
+	model.Bonded = env.Amount("bonded", 128)
+	r1 := model.RewardEntry{Validator: val1, Amount: env.Amount("reward1.amount", 100), Frac: env.Amount("reward1.frac", 64), Other: big.NewInt(9)}
+	r2 := model.RewardEntry{Validator: val2, Amount: env.Amount("reward2.amount", 100), Frac: env.Amount("reward2.frac", 64), Other: big.NewInt(0)}
+	verif.Assume(r1.Frac.Cmp(scale) < 0 && r2.Frac.Cmp(scale) < 0)
+	model.Rewards = []model.RewardEntry{r1, r2}
+	before := e.MS.Snapshot()
+
+	sdb := e.NewStateDB(e.Ctx, Coinbase)
+	ctx := sdb.GetCurrentContext()
+	static := verif.Bool("static")
+	call := func(input []byte) ([]interface{}, error) {
+		msg := ethtypes.NewMessage(caller, &contract, 0, big.NewInt(0), 5_000_000, big.NewInt(0), big.NewInt(0), big.NewInt(0), input, nil, true)
+		evm := e.EK.NewEVM(ctx, msg, e.EVMConfig(ctx, Coinbase, big.NewInt(0)), nil, sdb)
+		var ret []byte
+		var err error
+		if static {
+			ret, _, err = evm.StaticCall(corevm.AccountRef(caller), contract, input, 5_000_000)
+		} else {
+			ret, _, err = evm.Call(corevm.AccountRef(caller), contract, input, 5_000_000, big.NewInt(0))
+		}
+		if err != nil {
+			return nil, err
+		}
+		out, ok := model.AbiOut(ret)
+		if !ok {
+			panic("undecodable view output")
+		}
+		return out, nil
+	}
+	askedFor := func(kind, del, val string) bool {
+		n := 0
+		for _, q := range model.QueryLog {
+			if q == kind+"|"+del+"|"+val {
+				n++
+			} else if len(q) >= len(kind) && q[:len(kind)] == kind {
+				return false
+			}
+		}
+		return n >= 1
+	}
+	switch verif.Choice("view", 5) {
+	case 0:
+		out, err := call(stakingCall("delegatedValidators", who))
+		verif.Assert("delegatedValidators-ok", err == nil && len(out) == 1)
+		if err == nil && len(out) == 1 {
+			vs := out[0].([]common.Address)
+			verif.Assert("delegatedValidators-lists-the-argument's-validators", len(vs) == 1 && vs[0] == Val1)
+		}
+		verif.Assert("native-query-for-the-argument-address", askedFor("delegations", whoBech, ""))
+	case 1:
+		v := []common.Address{Val1, Val2}[verif.Choice("validator", 2)]
+		out, err := call(stakingCall("delegationOf", who, v))
+		verif.Assert("delegationOf-ok", err == nil && len(out) == 1)
+		if err == nil && len(out) == 1 {
+			want := big.NewInt(0)
+			if v == Val1 {
+				// tokens = shares * 3000 / 1000, truncated
+				want = new(big.Int).Quo(new(big.Int).Mul(sharesRaw, big.NewInt(3)), scale)
+			}
+			verif.Assert("delegationOf-is-tokens-from-shares", out[0].(*big.Int).Cmp(want) == 0)
+		}
+		verif.Assert("native-query-for-the-argument-address", askedFor("delegation", whoBech, sdk.ValAddress(v.Bytes()).String()))
+	case 2:
+		out, err := call(stakingCall("totalDelegationOf", who))
+		verif.Assert("totalDelegationOf-is-the-native-bonded-total", err == nil && len(out) == 1 && out[0].(*big.Int).Cmp(model.Bonded) == 0)
+		verif.Assert("native-query-for-the-argument-address", askedFor("bonded", whoBech, ""))
+	case 3:
+		v := []common.Address{Val1, Val2}[verif.Choice("validator", 2)]
+		out, err := call(stakingCall("rewardOf", who, v))
+		want := r1.Amount
+		if v == Val2 {
+			want = r2.Amount
+		}
+		verif.Assert("rewardOf-is-the-truncated-native-reward", err == nil && len(out) == 1 && out[0].(*big.Int).Cmp(want) == 0)
+		verif.Assert("native-query-for-the-argument-address", askedFor("rewards", whoBech, sdk.ValAddress(v.Bytes()).String()))
+	case 4:
+		out, err := call(stakingCall("rewardsOf", who))
+		// total = truncation of the decimal sum
+		sumRaw := new(big.Int).Add(new(big.Int).Add(new(big.Int).Mul(r1.Amount, scale), r1.Frac), new(big.Int).Add(new(big.Int).Mul(r2.Amount, scale), r2.Frac))
+		want := new(big.Int).Quo(sumRaw, scale)
+		verif.Assert("rewardsOf-is-the-truncated-native-total", err == nil && len(out) == 1 && out[0].(*big.Int).Cmp(want) == 0)
+		for _, q := range model.RewardsQueriedFor {
+			verif.Assert("native-query-for-the-argument-address", q == whoBech)
+		}
+		verif.Assert("total-rewards-queried", len(model.RewardsQueriedFor) >= 1)
+	}
+	verif.Assert("views-submit-no-native-message", len(model.StakingLog) == 0)
+	verif.Assert("views-emit-no-log", len(sdb.GetTransactionLogs()) == 0)
+	verif.Assert("views-leave-every-store", model.SameContent(before, e.MS))
+	verif.Reach("view-answered")
 }
 
 // H_C01_3_StakingTransferChoice: the validator that transfer() of the staking precompile delegates to is a
